@@ -16,10 +16,10 @@ Fixpoint textend (st : state) (tu : list (nat * Z * nat)) : state :=
   | p :: r => textend (fst (step st (OExtendSeq (fst (fst p)) (snd (fst p)) (snd p)))) r
   end.
 
-Lemma textend_reachable tu : forall st, reachable st -> reachable (textend st tu).
+Lemma textend_reachable tu : forall st, wf st -> wf (textend st tu).
 Proof.
   induction tu as [|((i, b), j) tu IH]; intros st R; cbn [textend fst snd]; auto.
-  apply IH. apply reachable_step. exact R.
+  apply IH. apply ok_step. exact R.
 Qed.
 
 Lemma step_extend_seq_len st i b j : length (seqs (fst (step st (OExtendSeq i b j)))) = length (seqs st).
@@ -28,14 +28,14 @@ Proof. simpl. destruct (is_live st i && is_live st j); simpl; auto. apply seqs_l
 (* growing a (derived) tractogram never alters any sequence object that is not one of its own
    components — whatever buffers they share: the components of the tractogram it was sliced from,
    of its copies, of any other tractogram *)
-Theorem textend_isolated tu : forall st, reachable st ->
+Theorem textend_isolated tu : forall st, wf st ->
   forall x, x < length (seqs st) -> (forall p, In p tu -> fst (fst p) <> x) ->
     getseq (textend st tu) x = getseq st x /\ C (textend st tu) x = C st x.
 Proof.
   induction tu as [|((i, b), j) tu IH]; intros st R x Hx Hn; cbn [textend fst snd]; auto.
   assert (Hi : x <> i) by (intros E; apply (Hn ((i, b), j)); [left; auto|simpl; auto]).
   destruct (grow_isolated st (OExtendSeq i b j) i R eq_refl x Hi Hx) as (A & B).
-  destruct (IH _ (reachable_step st (OExtendSeq i b j) R) x) as (A2 & B2).
+  destruct (IH _ (ok_step st (OExtendSeq i b j) R) x) as (A2 & B2).
   - rewrite step_extend_seq_len. auto.
   - intros p Hp. apply Hn. right; auto.
   - split; congruence.
@@ -43,7 +43,7 @@ Qed.
 
 (* own contents: every component receives the elements of the corresponding component of `other`
    (components pairwise distinct; `other` may be the tractogram itself or share components' buffers) *)
-Theorem textend_own tu : forall st, reachable st ->
+Theorem textend_own tu : forall st, wf st ->
   NoDup (map (fun p => fst (fst p)) tu) ->
   (forall p, In p tu -> is_live st (fst (fst p)) = true /\ is_live st (snd p) = true) ->
   (forall p p', In p tu -> In p' tu -> snd p = fst (fst p') -> p = p') ->
@@ -54,7 +54,7 @@ Proof.
   simpl in ND. inversion ND as [|? ? Hni ND']; subst.
   destruct (HL ((i, b), j) (or_introl eq_refl)) as (Li & Lj). simpl in Li, Lj.
   set (st1 := fst (step st (OExtendSeq i b j))).
-  assert (R1 : reachable st1) by (apply reachable_step; auto).
+  assert (R1 : wf st1) by (apply ok_step; auto).
   assert (LEN : length (seqs st1) = length (seqs st)) by apply step_extend_seq_len.
   assert (ISO : forall x, x <> i -> x < length (seqs st) -> getseq st1 x = getseq st x /\ C st1 x = C st x)
     by (intros x Hx Lx; apply (grow_isolated st (OExtendSeq i b j) i R eq_refl x Hx Lx)).
@@ -96,18 +96,18 @@ Definition tget_component (st : state) (c : nat) (ix : index) : state :=
 (* the component of the sliced tractogram is object (length (seqs st) + 1); it shows exactly the
    selected elements, lives on the component's buffer (a view: assignments through it reach the source
    while they share the buffer), and no existing object changes *)
-Theorem tget_component_spec st c ix ps : reachable st -> is_live st c = true ->
+Theorem tget_component_spec st c ix ps : wf st -> is_live st c = true ->
   positions (length (C st c)) ix = Ok ps ->
   let st' := tget_component st c ix in
   let w := S (length (seqs st)) in
-  reachable st' /\ C st' w = spec_pick (C st c) ps /\
+  wf st' /\ C st' w = spec_pick (C st c) ps /\
   sbuf (getseq st' w) = sbuf (getseq st c) /\ is_live st' w = true /\
   (forall k, k < length (seqs st) -> getseq st' k = getseq st k /\ C st' k = C st k).
 Proof.
   intros R L P. cbv zeta. unfold tget_component.
-  pose proof (reachable_wf st R) as W. pose proof (is_live_lt _ _ L) as Hc.
+  pose proof (ok_wf st R) as W. pose proof (is_live_lt _ _ L) as Hc.
   set (st1 := fst (step st (OGetIdx c ix))).
-  assert (R1 : reachable st1) by (apply reachable_step; auto).
+  assert (R1 : wf st1) by (apply ok_step; auto).
   pose proof (own_get_idx st c ix R L) as G. cbv zeta in G. rewrite P in G. fold st1 in G.
   destruct G as (_ & C1 & K1).
   set (v := length (seqs st)) in *.
@@ -118,7 +118,7 @@ Proof.
     unfold st1. simpl. rewrite L. rewrite (C_length st c W Hc) in P. rewrite P. unfold new_view, getseq, add_seq. simpl.
     unfold v. rewrite nth_app_new. reflexivity. }
   set (st2 := fst (step st1 (OView v default_bufbytes))).
-  assert (R2 : reachable st2) by (apply reachable_step; auto).
+  assert (R2 : wf st2) by (apply ok_step; auto).
   destruct (own_view st1 v default_bufbytes R1 Lv) as (C2 & K2 & B2). fold st2 in C2, K2, B2. rewrite L1 in C2, B2.
   assert (L2 : length (seqs st2) = S (S v)).
   { unfold st2. simpl. rewrite Lv. simpl. rewrite app_length, L1. simpl. lia. }
@@ -135,8 +135,8 @@ Proof.
   assert (H3 : heap st3 = heap st2) by (unfold st3; simpl; rewrite Lv2; reflexivity).
   assert (DC : forall k, k <> v -> C st3 k = C st2 k).
   { intros k Hk. unfold C, contents. rewrite D, H3 by auto. reflexivity. }
-  split; [apply reachable_step; auto|].
-  pose proof (reachable_wf st1 R1) as W1.
+  split; [apply ok_step; auto|].
+  pose proof (ok_wf st1 R1) as W1.
   split; [rewrite DC by lia; rewrite C2; exact C1|].
   split.
   { rewrite D by lia. rewrite B2.
@@ -155,13 +155,13 @@ Proof.
 Qed.
 
 (* ---------------------------------------------------------------- Tractogram.copy() = copy.deepcopy: a clone per component *)
-Theorem deep_copy_spec st i : reachable st -> is_live st i = true ->
+Theorem deep_copy_spec st i : wf st -> is_live st i = true ->
   let st' := fst (step st (ODeepCopy i)) in
   let n := length (seqs st) in
-  snd (step st (ODeepCopy i)) = ROk /\ reachable st' /\ length (seqs st') = S n /\ is_live st' n = true /\
+  snd (step st (ODeepCopy i)) = ROk /\ wf st' /\ length (seqs st') = S n /\ is_live st' n = true /\
   C st' n = C st i /\ keeps st st' /\ length (heap st) <= sbuf (getseq st' n).
 Proof.
-  intros R L. cbv zeta. pose proof (reachable_step st (ODeepCopy i) R) as R'.
+  intros R L. cbv zeta. pose proof (ok_step st (ODeepCopy i) R) as R'.
   unfold step in *. rewrite L in *. cbn [fst snd] in *.
   set (s := getseq st i) in *.
   set (s' := mkSeq (length (heap st)) (offs s) (lens s) (is_view s) (bufbytes s) (scache s) true) in *.
@@ -186,21 +186,21 @@ Definition tadd_component (st : state) (c : nat) (b : Z) (oc : nat) : state :=
 (* the component of the sum is the new object length (seqs st): it shows the elements of c followed by
    those of oc; NO existing object changes — in particular no component of either operand, whatever
    they share (self + self, self + self[idx], ...) *)
-Theorem tadd_component_spec st c b oc : reachable st -> is_live st c = true -> is_live st oc = true ->
+Theorem tadd_component_spec st c b oc : wf st -> is_live st c = true -> is_live st oc = true ->
   let st' := tadd_component st c b oc in
   let n := length (seqs st) in
-  reachable st' /\ C st' n = spec_extend (C st c) (C st oc) /\
+  wf st' /\ C st' n = spec_extend (C st c) (C st oc) /\
   (forall k, k < n -> getseq st' k = getseq st k /\ C st' k = C st k).
 Proof.
   intros R Lc Lo. cbv zeta. unfold tadd_component.
-  pose proof (reachable_wf st R) as W.
+  pose proof (ok_wf st R) as W.
   destruct (deep_copy_spec st c R Lc) as (_ & R1 & L1 & Ln & C1 & K1 & _). cbv zeta in *.
   set (st1 := fst (step st (ODeepCopy c))) in *. set (n := length (seqs st)) in *.
   assert (Lo1 : is_live st1 oc = true).
   { pose proof (is_live_lt _ _ Lo) as Ho. unfold is_live in *. apply andb_prop in Lo. destruct Lo as (_ & Lv).
     rewrite L1. assert (E : (oc <? S n) = true) by (apply Nat.ltb_lt; unfold n; lia). rewrite E. cbn [andb].
     destruct K1 as (_ & _ & K3 & _). rewrite K3; auto. }
-  split; [apply reachable_step; auto|split].
+  split; [apply ok_step; auto|split].
   - rewrite (own_extend_seq st1 n b oc R1 Ln Lo1). rewrite C1.
     rewrite (proj2 (keeps_all st st1 W K1 oc (is_live_lt _ _ Lo))). reflexivity.
   - intros k Hk.
@@ -219,7 +219,7 @@ Definition affine_elementwise (st : state) (c : nat) : bool :=
    the view constructor) the element-wise branch runs: `for i: streamlines[i] = f(streamlines[i])`,
    i.e. OOp c f true.  It alters exactly the elements the view contains — an element listed k times is
    transformed k times, in every object that holds that very array — and nothing else. *)
-Theorem tapply_affine_view st c f dt : reachable st -> is_live st c = true ->
+Theorem tapply_affine_view st c f dt : wf st -> is_live st c = true ->
   is_view (getseq st c) = true -> offs (getseq st c) <> [] ->
   affine_elementwise st c = true /\
   let st' := fst (step st (OOp c f true dt)) in
@@ -238,4 +238,89 @@ Proof.
   - intros [N|N].
     + apply Nat.eqb_neq in N. rewrite N. reflexivity.
     + destruct (_ =? _); [|reflexivity]. rewrite occ_zero by auto. reflexivity.
+Qed.
+
+(* ---------------------------------------------------------------- the other branch of apply_affine *)
+(* `self.streamlines._data = apply_affine(affine, self.streamlines._data, inplace=True)` — taken when the object is
+   not a view and its elements fill its buffer (affine_elementwise = false).  nibabel.affines.apply_affine with
+   inplace=True runs np.dot(pts, rzs.T, out=pts): on a float64 buffer (dtchg = false) the WHOLE buffer is
+   transformed where it is and the very same array comes back; for any other dtype np.dot refuses (ValueError), a
+   freshly allocated float64 array is returned and becomes _data (dtchg = true): the object moves to a buffer of
+   its own and whoever shared the old one keeps the old values. *)
+Definition taffine_whole (st : state) (c : nat) (f : fn) (dtchg : bool) : state :=
+  let s := getseq st c in
+  let b := getbuf (heap st) (sbuf s) in
+  let x := mkBuf (cap b) (map (apply_fn f) (rows b)) in
+  if dtchg then new_buf_for st c x else set_buf st (sbuf s) x.
+
+Lemma elems_of_map (g : Z -> Z) r os ls : elems_of (map g r) os ls = map (map g) (elems_of r os ls).
+Proof.
+  unfold elems_of. rewrite map_map. apply map_ext. intros p. apply slice_map.
+Qed.
+
+(* float64: every object on the buffer — the owner and every view of it, whatever it selects and however often —
+   sees each of its elements transformed exactly ONCE; nothing else changes; the state stays well-formed *)
+Theorem tapply_affine_whole_inplace st c f : wf st -> is_live st c = true ->
+  affine_elementwise st c = false ->
+  let st' := taffine_whole st c f false in
+  wf st' /\ seqs st' = seqs st /\
+  forall j, j < length (seqs st) ->
+    C st' j = if sbuf (getseq st j) =? sbuf (getseq st c) then map (map (apply_fn f)) (C st j) else C st j.
+Proof.
+  intros W L AE. cbv zeta. unfold taffine_whole.
+  pose proof (is_live_lt _ _ L) as Hc.
+  destruct (wf_seq _ W c Hc) as (Sb & _ & _).
+  set (b := getbuf (heap st) (sbuf (getseq st c))).
+  split; [|split; [reflexivity|]].
+  - apply wf_set_buf_ge; auto; cbn [rows cap]; rewrite map_length.
+    + apply (wf_heap _ W); auto.
+    + unfold rows_of. fold b. lia.
+  - intros j Hj.
+    assert (G : getseq (set_buf st (sbuf (getseq st c)) (mkBuf (cap b) (map (apply_fn f) (rows b)))) j = getseq st j)
+      by reflexivity.
+    unfold C, contents. rewrite G. unfold set_buf. cbn [heap]. unfold getbuf.
+    destruct (Nat.eqb_spec (sbuf (getseq st j)) (sbuf (getseq st c))) as [E|N].
+    + rewrite E, nth_upd_same by auto. cbn [rows]. apply elems_of_map.
+    + rewrite nth_upd_other by auto. reflexivity.
+Qed.
+
+(* any other dtype: the object has the transformed elements on a buffer nobody else uses; every other object is
+   exactly what it was (same buffer, same elements, same values); the state stays well-formed *)
+Theorem tapply_affine_whole_detach st c f : wf st -> is_live st c = true ->
+  affine_elementwise st c = false ->
+  let st' := taffine_whole st c f true in
+  wf st' /\ length (seqs st') = length (seqs st) /\
+  C st' c = map (map (apply_fn f)) (C st c) /\
+  sbuf (getseq st' c) = length (heap st) /\
+  forall j, j <> c -> j < length (seqs st) ->
+    getseq st' j = getseq st j /\ C st' j = C st j /\ sbuf (getseq st' j) <> sbuf (getseq st' c).
+Proof.
+  intros W L AE. cbv zeta. unfold taffine_whole, new_buf_for.
+  pose proof (is_live_lt _ _ L) as Hc.
+  destruct (wf_seq _ W c Hc) as (Sb & Sl & Sc).
+  apply orb_false_elim in AE. destruct AE as (Hv & _).
+  set (s := getseq st c) in *.
+  set (b := getbuf (heap st) (sbuf s)).
+  set (x := mkBuf (cap b) (map (apply_fn f) (rows b))).
+  set (s' := mkSeq (length (heap st)) (offs s) (lens s) (is_view s) (bufbytes s) (scache s) (live s)).
+  assert (Gc : getseq (mkSt (heap st ++ [x]) (upd (seqs st) c s')) c = s').
+  { unfold getseq. cbn [seqs]. apply nth_upd_same; auto. }
+  assert (Go : forall j, j <> c -> getseq (mkSt (heap st ++ [x]) (upd (seqs st) c s')) j = getseq st j).
+  { intros j N. unfold getseq. cbn [seqs]. apply nth_upd_other; auto. }
+  destruct (wf_buf _ W _ Sb) as (os & ls & C1 & C2 & C3).
+  destruct (C3 c Hc eq_refl) as (_ & C4). destruct (C4 Hv) as (Eo & El).
+  split; [|split; [|split; [|split]]].
+  - apply wf_move_fresh; auto.
+    + fold s in Eo, El. unfold s'. cbn [offs lens]. rewrite Eo, El. exact C1.
+    + fold s in Eo, El. unfold s', x. cbn [offs lens rows]. rewrite map_length, Eo, El. exact C2.
+    + unfold x. cbn [rows cap]. rewrite map_length. apply (wf_heap _ W); auto.
+    + unfold s', x. cbn [scache rows]. rewrite map_length. destruct (scache s) as [ca|] eqn:Ec; [|exact I].
+      unfold rows_of in Sc. fold b in Sc. exact Sc.
+  - cbn [seqs]. apply upd_length.
+  - unfold C, contents. rewrite Gc. unfold s'. cbn [sbuf offs lens heap]. rewrite getbuf_app_new.
+    unfold x. cbn [rows]. apply elems_of_map.
+  - rewrite Gc. reflexivity.
+  - intros j N Hj. destruct (wf_seq _ W j Hj) as (Sj & _ & _). split; [apply Go; auto|]. split.
+    + unfold C, contents. rewrite (Go j N). cbn [heap]. rewrite getbuf_app_old by auto. reflexivity.
+    + rewrite (Go j N), Gc. unfold s'. cbn [sbuf]. lia.
 Qed.
